@@ -22,6 +22,7 @@ import (
 	"verif/internal/custom"
 	"verif/internal/evid"
 	"verif/internal/gen"
+	"verif/internal/modfix"
 	"verif/internal/refjq"
 	"verif/internal/run"
 	"verif/internal/univ"
@@ -345,7 +346,7 @@ func judge(t *rapid.T, sub string, c concCase) {
 func TestC06(t *testing.T) {
 	rec = evid.Open("C06")
 	defer rec.Close()
-	defer removeModDir()
+	defer modfix.Remove()
 	rec.ShrinkTime = "20s"
 	var err error
 	if model, err = refjq.New(); err != nil {
@@ -389,10 +390,10 @@ func TestC06(t *testing.T) {
 	}))
 	rec.Rapid(t, "options", rec.Scale(3000, 100000), func(t *rapid.T) {
 		rec.Class("tier/options")
-		q := rapid.SampledFrom(optPrograms).Draw(t, "q")
+		q := rapid.SampledFrom(modfix.Programs).Draw(t, "q")
 		if rapid.IntRange(0, 3).Draw(t, "compose") == 0 {
 			// imports come first: only import-free programs can follow
-			if q2 := rapid.SampledFrom(optPrograms).Draw(t, "q2"); !strings.Contains(q2, "import ") && !strings.Contains(q2, "include ") {
+			if q2 := rapid.SampledFrom(modfix.Programs).Draw(t, "q2"); !strings.Contains(q2, "import ") && !strings.Contains(q2, "include ") {
 				q = q + ", (" + q2 + ")"
 			}
 		}
